@@ -9,6 +9,7 @@ import (
 	"os"
 	"path/filepath"
 	"sync"
+	"time"
 
 	"github.com/go-gl/gl/v2.1/gl"
 	"github.com/go-gl/glfw/v3.1/glfw"
@@ -34,6 +35,11 @@ type Scenario struct {
 	Audio  bool       `json:"audio"`
 	Frames int        `json:"frames"`
 	Keys   []KeyEvent `json:"keys"`
+	// Host-side perturbations (never part of what must be equal between runs): milliseconds to
+	// sleep on the audio consumer before callback n, and on the emulator's own goroutine at
+	// the end of frame f.
+	ConsumerStalls map[int64]int `json:"consumer_stalls,omitempty"`
+	ProducerStalls map[int]int   `json:"producer_stalls,omitempty"`
 }
 
 // Trace is everything observable about a run.
@@ -116,6 +122,18 @@ func Run(s Scenario, romPath string) Trace {
 			mu.Unlock()
 		}
 	}
+	if s.Audio && len(s.ConsumerStalls) > 0 {
+		portaudio.BeforeCallback = func(n int64) {
+			if ms, ok := s.ConsumerStalls[n]; ok {
+				time.Sleep(time.Duration(ms) * time.Millisecond)
+			}
+		}
+	}
+	stallProducer := func(frame int) {
+		if ms, ok := s.ProducerStalls[frame]; ok {
+			time.Sleep(time.Duration(ms) * time.Millisecond)
+		}
+	}
 	serial := &bytes.Buffer{}
 	gb := gameboy.New(gameboy.Config{RomFilename: romPath, DisableVideoOutput: !s.Video, DisableAudioOutput: !s.Audio, SerialWriter: serial})
 	deliver := func(frame int) {
@@ -143,6 +161,7 @@ func Run(s Scenario, romPath string) Trace {
 		glfw.OnPoll = func(w *glfw.Window, n int64) {
 			tr.FrameHashes = append(tr.FrameHashes, hashBytes(gb.XPPU().Frame().Pix))
 			deliver(int(n))
+			stallProducer(int(n))
 			if int(n) >= s.Frames {
 				w.SetShouldClose(true)
 			}
@@ -153,6 +172,7 @@ func Run(s Scenario, romPath string) Trace {
 			gb.XRunFrame(context.Background())
 			tr.FrameHashes = append(tr.FrameHashes, hashBytes(gb.XPPU().Frame().Pix))
 			deliver(f)
+			stallProducer(f)
 		}
 		gb.Cleanup()
 	}
